@@ -22,6 +22,9 @@ project = impl_aio.project
 
 def scenarios(rng, n, tier):
     for _ in range(n):
+        if rng.random() < 0.08:
+            yield sliced_scenario(rng)
+            continue
         tz = None if rng.random() < 0.4 else gen.rand_off(rng, rng.choice(["zero", "hour", "half"]))[0]
         clock = gen.rand_instant(rng)[0] // S * S
         scn = {"aio": True, "tz": tz, "clock0": clock, "ops": [], "dflt": {"acts": [["sl", 1_000_607]], "raises": False}}
@@ -102,8 +105,51 @@ def scenarios(rng, n, tier):
         yield scn
 
 
+def sliced_scenario(rng):
+    """the loop is driven in slices; a job with a backlog is deleted by synchronous code between two slices, in the
+    middle of its catch-up chain (its supervisor's next step is already queued)"""
+    tz = None if rng.random() < 0.5 else 0
+    clock = gen.rand_instant(rng)[0] // S * S
+    scn = {"aio": True, "sliced": True, "tz": tz, "clock0": clock, "ops": [], "dflt": {"acts": [], "raises": False}}
+    nj = rng.randint(1, 3)
+    for i in range(nj):
+        T = rng.choice([1, 2, 5]) * S
+        o = {"op": "sch", "call": 0, "timings": [["c", T]], "w": [1, 1], "tags": sorted(rng.sample(range(1, 4), rng.randint(0, 2))),
+             "start": [clock - rng.randint(3, 9) * T + (tz or 0), tz], "runs": [{"acts": [], "raises": False}]}
+        if rng.random() < 0.3:
+            o["max_att"] = rng.choice([2, 3, 20])
+        scn["ops"].append(o)
+    for _ in range(rng.randint(1, 3)):
+        scn["ops"].append({"op": "slice", "yields": rng.randint(0, 7)})
+        if rng.random() < 0.7:
+            scn["ops"].append({"op": "del", "key": rng.randrange(nj)})
+        else:
+            scn["ops"].append({"op": "dtags", "tags": sorted(rng.sample(range(1, 4), rng.randint(0, 1))), "any": rng.random() < 0.5})
+    scn["ops"].append({"op": "run", "until": clock + 3 * S + 500_005})
+    return scn
+
+
+def sliced_specs(r):
+    qs = []
+    dead = set()
+    for i, ob in enumerate(r["obs"]):
+        if ob.get("task_errors"):
+            qs.append(("spec eq 0 1", {"what": "no_task_error", "op": i, "errors": ob["task_errors"][:2]}))
+    last_trace = r["obs"][-1].get("trace", []) if r["obs"] else []
+    for (kind, k) in last_trace:
+        if kind == "D":
+            dead.add(k)
+        elif kind == "S" and k in dead:
+            qs.append(("spec eq 0 1", {"what": "no_start_after_delete (deleted by synchronous code between two slices of the loop)", "key": k}))
+            break
+    qs.append((f"spec eq {len(last_trace)} {len(last_trace)}", {"what": "trace recorded"}))
+    return qs
+
+
 def specs(r):
     from .. import aiomix
+    if r["scn"].get("sliced"):
+        return sliced_specs(r)
     qs = aiomix.probe_specs(r) + aiomix.idle_specs(r)
     scn = r["scn"]
     gone_at = {}     # key -> instant after which no start may happen
